@@ -92,6 +92,26 @@ CHECKS.update({
         note="Trusted base: panic hook + location filter (/repo/); full-stack TLS/TCP legs live in the C12 engine (tlswire) and netsim."),
 })
 
+NET_NOTE = ("Trusted base: tokio current_thread scheduler with paused clock (schedules explored by timing perturbation: start "
+            "times, handler delays, chunk gaps, transport connect delay and per-read latency, buffer sizes 1 B-64 KiB); hyper/h2 as "
+            "HTTP engines on both sides; the duplex transport stands for the network. HTTP/2 is combined only with pipes >= 128 B "
+            "(h2's own handshake deadlocks on smaller ones) and GET bodies carry exact size hints (hyper does not chunk GET bodies).")
+
+CHECKS.update({
+    "C01": dict(engine="netsim+poolsim", ref="§5 C01, §4 E2/E1",
+        technique="end-to-end property-based testing in virtual time: generated concurrent request scripts with id-tagged payloads through the real client stack, pool, hyper and Server; two-directional oracle (handler checks every request, client checks every response); plus a pool-level leg requiring every uncancelled request of a fault-free history to succeed",
+        text="Up to 8/24 concurrent requests over 1-3 h1/h2/auto servers with streamed patterned bodies, chunked responses, handler delays, cancellations at any instant, pool on/off and all pool settings: every handled request must carry exactly what its caller sent and every uncancelled request must complete with the response produced for its own id and origin. The open finding (KNOWN_FINDINGS.txt) is matched by signature and does not mask other violations.",
+        note=NET_NOTE),
+    "C07": dict(engine="netsim", ref="§5 C07, §4 E2",
+        technique="virtual-time schedule generation: the graceful-shutdown signal instant is swept relative to accept, protocol detection, request transfer, handler execution and response transfer; history invariants over the handler log, the executor-wrapped connection tasks and the client results",
+        text="Serving future resolves Ok exactly at the signal; every request whose handler started before the signal receives its complete correct response; every connection task (including idle keep-alive connections and connections still in protocol detection) finishes while the clients keep their ends open; nothing is accepted or served on a connection accepted after the signal.",
+        note=NET_NOTE + " Idle holders are only placed where hyper itself closes them on graceful shutdown (auto-detecting and idle HTTP/1 connections)."),
+    "C09": dict(engine="netsim", ref="§5 C09, §4 E2",
+        technique="fault-sequence generation in virtual time: per-connection faults (cancelled connect, disconnects, garbage, truncated head/body, mid-response disconnect, partial preface, handler errors) interleaved with well-behaved requests; oracle = serving futures still pending, probe client served, other requests correct",
+        text="After 1-5 generated faults per case the serving future of every server must still be pending, a fresh well-behaved probe client must be served by every server, and every well-behaved request on other connections must have completed with its correct response.",
+        note=NET_NOTE + " TLS handshake faults are exercised in the C12 engine (tlswire); OS-level accept errors are not reachable."),
+})
+
 NOT_YET = {
     "C01": "check not built yet (engine E2 netsim in progress)",
     "C07": "check not built yet (engine E2 netsim in progress)",
